@@ -138,7 +138,7 @@ let () =
             end
         end);
       (* the property on well-formed streams (a valid history delivered under some placement) *)
-      if label = "valid" then begin
+      if label = "valid" || label = "valid-keypaths" then begin
         let raw = List.map (fun e -> match String.split_on_char ':' e with
             | [ st; f; _ ] -> (ios st, int_failure f) | _ -> failwith "bad event") (split ',' events) in
         (* what the handler consumed: up to and including the first event that ends the wait according to the
@@ -152,7 +152,7 @@ let () =
          | (st, _) :: _ when spec_terminal st && outcome = "WAIT" ->
            specviol id "c08_unanswered_finished_transaction" (Printf.sprintf "%s sync=%s events=%s: the last delivered state is final but the handler kept waiting" kind sync events)
          | _ -> ());
-        monitor_truth id ~sync:sy ~seen ~outcome ~where:(Printf.sprintf "%s events=%s" kind events)
+        monitor_truth id ~sync:sy ~seen ~outcome ~where:(Printf.sprintf "%s events=%s change map=%s" kind events cm)
       end;
       if !nsamples < 3 then sample (Printf.sprintf "loop %s sync=%s events=%s -> %s" kind sync events outcome)
 
